@@ -461,7 +461,46 @@ func checkC15(w *World, r *Report) {
 						op = token.LEQ
 					}
 				}
-				construct := "staleness test: current modification time " + op.String() + " cached lastModified"
+				// which way is the comparison used?  If its true edge leads straight to "return the
+				// cached template, nil", the reload condition is its negation
+				if x.Referrers() != nil {
+					for _, ref := range *x.Referrers() {
+						iff, isIf := ref.(*ssa.If)
+						if !isIf {
+							continue
+						}
+						keeps := func(b *ssa.BasicBlock) bool {
+							if len(b.Instrs) == 0 {
+								return false
+							}
+							ret, isRet := b.Instrs[len(b.Instrs)-1].(*ssa.Return)
+							if !isRet {
+								return false
+							}
+							res := retResults(ret)
+							ei := errResultIndex(part.Signature)
+							return ei >= 0 && ei < len(res) && isNilConst(res[ei])
+						}
+						tb, fb := iff.Block().Succs[0], iff.Block().Succs[1]
+						if keeps(tb) && !keeps(fb) {
+							switch op {
+							case token.LSS:
+								op = token.GEQ
+							case token.LEQ:
+								op = token.GTR
+							case token.GTR:
+								op = token.LEQ
+							case token.GEQ:
+								op = token.LSS
+							case token.EQL:
+								op = token.NEQ
+							case token.NEQ:
+								op = token.EQL
+							}
+						}
+					}
+				}
+				construct := "staleness test: reload when current modification time " + op.String() + " cached lastModified"
 				if op == token.GTR || op == token.NEQ {
 					r.ok("R15.4", pname, construct, w.posOf(x.Pos()), "a newer (or different) timestamp triggers the reload; an equal one does not", true)
 				} else {
